@@ -66,6 +66,13 @@ def hier(c, N, tau, g, s0, r0, th):
     m['dSkap'] = [N * sum(c[k] * binom(k, kap) * ((kap * pw(u, kap - 1) * pw(v, k - kap) * du if kap else 0) +
                                                   ((k - kap) * pw(u, kap) * pw(v, k - kap - 1) * dv if k > kap else 0))
                           for k in range(kap, K)) for kap in range(K)]
+    # full effective degree model: S_{s,i} = N sum_k c_k k!/(s! i! (k-s-i)!) phiS^s phiI^i phiR^(k-s-i), (K x K array, row s, column i)
+    tri = lambda k, s_, i_: binom(k, s_) * binom(k - s_, i_)
+    m['Ssi'] = [[N * sum(c[k] * tri(k, s_, i_) * pw(phiS, s_) * pw(phiI, i_) * pw(phiR, k - s_ - i_) for k in range(s_ + i_, K)) for i_ in range(K)] for s_ in range(K)]
+    m['dSsi'] = [[N * sum(c[k] * tri(k, s_, i_) * ((s_ * pw(phiS, s_ - 1) * dphiS * pw(phiI, i_) * pw(phiR, k - s_ - i_) if s_ else 0) +
+                                                   (i_ * pw(phiS, s_) * pw(phiI, i_ - 1) * dphiI * pw(phiR, k - s_ - i_) if i_ else 0) +
+                                                   ((k - s_ - i_) * pw(phiS, s_) * pw(phiI, i_) * pw(phiR, k - s_ - i_ - 1) * dphiR if k > s_ + i_ else 0))
+                          for k in range(s_ + i_, K)) for i_ in range(K)] for s_ in range(K)]
     return m
 
 
@@ -99,7 +106,7 @@ def case_spec(EoN, p):
     A = EoN.analytic
     th_name = p['theorem']; a = p['args']
     f = lambda x: float(F(x))
-    if th_name in ('ebcm_to_super_compact', 'ebcm_to_compact', 'super_compact_to_compact', 'ebcm_to_compact_effective_degree'):
+    if th_name in ('ebcm_to_super_compact', 'ebcm_to_compact', 'super_compact_to_compact', 'ebcm_to_compact_effective_degree', 'ebcm_to_effective_degree'):
         c = [f(x) for x in a['c']]; N, tau, g, th, R = (f(a[k]) for k in ('N', 'tau', 'gamma', 'theta', 'R'))
         s0, r0 = f(a.get('phiS0', 1)), f(a.get('phiR0', 0))
         ps, psP, psDP = polys(c)
@@ -119,6 +126,12 @@ def case_spec(EoN, p):
             lhs = A._dSIR_compact_pairwise_(np.array(m['Sk'] + [SS, SI, R]), 0, N, tau, g)
             rhs = [d * sc[0] for d in m['dSk']] + [sc[1], sc[2], sc[3]]
             what = '_dSIR_compact_pairwise_ at S_k = N c_k theta^k vs push-forward of _dSIR_super_compact_pairwise_'
+        elif th_name == 'ebcm_to_effective_degree':
+            K = len(c)
+            X = np.array([x for row in m['Ssi'] for x in row] + [R])
+            lhs = A._dSIR_effective_degree_(X, 0, N, (K, K), tau, g)
+            rhs = [d * e[0] for row in m['dSsi'] for d in row] + [e[1]]
+            what = '_dSIR_effective_degree_ at the trinomial manifold point Phi_ed(theta,R) vs push-forward of _dEBCM_'
         else:
             lhs = A._dSIR_compact_effective_degree_(np.array(m['Skap'] + [R, m['SI']]), 0, N, tau, g)
             rhs = [d * e[0] for d in m['dSkap']] + [e[1], m['dSI'] * e[0]]
@@ -232,6 +245,13 @@ def case_wrapper(EoN, p):
         if not (closev(list(Skap0) + [R0, SI0], m['Skap'] + [0.0, m['SI']]) and C.close(float(I0 + R0 + sum(Skap0)), float(N))):
             return 'initial (Skappa, R, SI) = %s, the manifold point Phi_ced(1,0) is %s' % (fl(list(Skap0) + [R0, SI0]), fl(m['Skap'] + [0.0, m['SI']]))
         return None
+    if w == 'SIR_effective_degree_from_graph':
+        b = capture(EoN, w, 'SIR_effective_degree', G, tau, g, rho=rho)
+        Ssi0, I0, R0 = b['a'][:3]
+        want = np.array(m['Ssi'], dtype=float)
+        if not (np.shape(Ssi0) == want.shape and closev(np.array(Ssi0).ravel(), want.ravel()) and C.close(float(R0), 0.0) and C.close(float(I0 + R0 + np.sum(Ssi0)), float(N))):
+            return 'initial S_si = %s (R0=%s), the manifold point Phi_ed(1,0) is %s' % (fl(np.array(Ssi0).ravel()), R0, fl(want.ravel()))
+        return None
     return 'unknown wrapper'
 
 
@@ -287,6 +307,8 @@ def spec_points(rng, n):
         out.append({'theorem': 'super_compact_to_compact', 'args': dict(base, SS=str(dy(rng, 1, 400, 4)), SI=str(dy(rng, 1, 400, 4)))})
         out.append({'theorem': 'ebcm_to_compact_effective_degree', 'args': dict(base, phiS0=str(1 - rho), phiR0='0')})
         out.append({'theorem': 'ebcm_to_compact_effective_degree', 'args': dict(base, phiS0=str(dy(rng, 4, 16, 16)), phiR0=str(dy(rng, 0, 4, 32)))})
+        out.append({'theorem': 'ebcm_to_effective_degree', 'args': dict(base, phiS0=str(1 - rho), phiR0='0')})
+        out.append({'theorem': 'ebcm_to_effective_degree', 'args': dict(base, phiS0=str(dy(rng, 4, 16, 16)), phiR0=str(dy(rng, 0, 4, 32)))})
         out.append({'theorem': 'lump_SIR_heterogeneous_meanfield_regular', 'args': dict(k=rng.randint(1, 6), theta=base['theta'], r=str(dy(rng, 0, 64, 8)), s0=str(dy(rng, 1, 64, 2)),
                                                                                        N=base['N'], tau=base['tau'], gamma=base['gamma'])})
         Pk = rand_Pkdict(rng); pk = {str(k): str(v) for k, v in Pk.items()}
@@ -295,7 +317,7 @@ def spec_points(rng, n):
     return out
 
 
-WRAPPERS = ['EBCM_from_graph', 'SIR_super_compact_pairwise_from_graph', 'SIR_compact_pairwise_from_graph', 'SIR_compact_effective_degree_from_graph']
+WRAPPERS = ['EBCM_from_graph', 'SIR_super_compact_pairwise_from_graph', 'SIR_compact_pairwise_from_graph', 'SIR_compact_effective_degree_from_graph', 'SIR_effective_degree_from_graph']
 
 
 def wrapper_points(rng, n):
